@@ -2734,7 +2734,14 @@ class Deb822FileElement(Deb822Element):
         if isinstance(tail_element, Deb822ParagraphElement):
             # Without this, the separator below would merely terminate the last line
             tail_element._add_final_newline_if_missing()
-        if tail_element and not isinstance(tail_element, Deb822WhitespaceToken):
+        elif (tail_element is not None
+              and not tail_element.convert_to_text().endswith('\n')):
+            # The file ends on a comment or a whitespace-only line without its
+            # newline; terminate that line first (a whitespace-only line is a
+            # separator once it is terminated).
+            self._token_and_elements.append(self._set_parent(Deb822WhitespaceToken('\n')))
+        # (an empty paragraph is false, hence "is not None")
+        if tail_element is not None and not isinstance(tail_element, Deb822WhitespaceToken):
             self._token_and_elements.append(self._set_parent(Deb822WhitespaceToken('\n')))
         self._token_and_elements.append(self._set_parent(paragraph))
         paragraph.parent_element = self
